@@ -595,11 +595,11 @@ def handle (fx : String → Bool) (line : String) : String :=
     let keys := (sortByStr id (loaded.map (·.1))).eraseDups
     "bytes=" ++ hex b ++ " load=" ++ String.intercalate "," (keys.map fun k => hex k ++ "=" ++ hex ((SumFile.loadLookup b k).getD []))
   | "exec" :: args => ExecProbe.run (fx "F17") args
-  | "vlit" :: _ :: toks => ValProbe.run fx1 toks
+  | "vlit" :: toks => ValProbe.run (if fx "F9" then "1" else "0") toks
   | ["infl", which, h] => InflProbe.run (fx "F2") (fx "F3") which h
   | "dcopy" :: _ :: prev :: decls => DcProbe.run fx1 prev decls
   | "rdoc" :: id :: names :: types => RdProbe.run fxB id names types
-  | "tlit" :: _ :: self :: names :: toks => TlProbe.run fx1 self names toks
+  | "tlit" :: self :: names :: toks => TlProbe.run (if fx "F10" then "1" else "0") self names toks
   | "track" :: hs =>
     let r := (hs.map unhex).foldl (fun (acc : Option (Tracker.Tracker × List String)) p =>
       acc.bind fun (t, out) => (if fxB then some (LocalName.addF stdTab true t p) else LocalName.addP stdTab true t p).map fun t' =>
